@@ -379,7 +379,9 @@ def parse_printed(out, ident):
     m = re.search(r"(?:^|\n)" + re.escape(ident) + r" =\s*(.*?)\n\s+: ", out, re.S)
     if not m:
         return None
-    return re.sub(r"\s+", " ", m.group(1)).strip()
+    # Coq's printer may break a line right behind an opening parenthesis: "(\n 14%nat, 103%N, 21%nat)"
+    t = re.sub(r"\s+", " ", m.group(1)).strip()
+    return t.replace("( ", "(").replace(" )", ")")
 
 
 def parse_nat_list(txt):
